@@ -223,6 +223,9 @@ func (g *Gen) batchDates(now time.Time) (time.Time, time.Time) {
 		end = start.AddDate(g.R.Range(0, 2), g.R.Range(0, 11), g.R.Range(1, 27))
 	case 1:
 		end = start // start == end (accepted by message validation)
+		if g.P.AvoidKnown {
+			end = start.Add(time.Nanosecond)
+		}
 	default:
 		end = start.Add(time.Nanosecond)
 	}
